@@ -289,6 +289,19 @@ CLAIMED.update({
     },
 })
 
+CLAIMED.update({
+    "C10": {
+        "technique": "static analysis: who-may-seed census and value origin of the routing hash state; call-graph must-reach; exhaustive path enumeration of the task-completion fan-out; pending-needs-delegation on the output stream",
+        "level": ("Static: every seeded hash state in physical-plan originates from one of two named constants (or the plan decoder); "
+                  "BatchPartitioner::partition_iter and the hash join's partitioned dynamic-filter router both hash with "
+                  "REPARTITION_RANDOM_STATE; RangeExpr::evaluate and the batch partitioner share range_partition_id; on all paths of "
+                  "RepartitionExec::wait_for_task every output channel taken from the list is sent a terminal message, Some(Err) built "
+                  "from the failed task's result in both failure arms and None on success; PerPartitionStream::poll_next_inner returns "
+                  "Pending only as the Pending of an inner poll. Necessary conditions of 'equal keys meet' and 'every output sees its "
+                  "end or the error'; exact placement, exactly-once delivery, spill order and schedules are not decided."),
+    },
+})
+
 NA = {
     'C01': 'whole-pipeline value semantics over all queries x all table contents: functional verification, no clause visible in code shape beyond C03/C05/C47',
     'C08': 'ordering/permutation of runtime values (loser tree, cursors, heaps are value algorithms); no structural clause',
